@@ -34,3 +34,10 @@ Lemma filter_rejects_by_destination_only :
                     "err!=nil => errcode.ErrCode_ErrDeserialization.Wrap(err)";
                     "!localMemberPublicKey.Equals(destMemberPubKey) => errcode.ErrCode_ErrGroupSecretOtherDestMember"].
 Proof. reflexivity. Qed.
+
+(* ActivateGroupContext subscribes to the metadata events (and starts the live handler) BEFORE it scans the
+   log as it stands: i_sub <= i_snap in Model.C05_Receive.registered_window *)
+Lemma activation_subscribes_first :
+  activate_order = ["Subscribe"; "handleGroupMetadataEvent"; "fillMessageKeysHolderUsingPreviousData";
+                    "sendSecretsToExistingMembers"; "AddDeviceToGroup"].
+Proof. reflexivity. Qed.
